@@ -27,8 +27,28 @@ fn snapshot_bits(msg: &str) -> i128 {
     }
 }
 
+/// a statistics slot that reads the value a block carries the way a consumer does: as an f64
+struct ValueSlot {}
+static LAST_VALUE: std::sync::Mutex<Option<i128>> = std::sync::Mutex::new(None);
+impl sentinel_core::base::BaseSlot for ValueSlot {
+    fn order(&self) -> u32 {
+        9500
+    }
+}
+impl sentinel_core::base::StatSlot for ValueSlot {
+    fn on_entry_pass(&self, _ctx: &sentinel_core::base::EntryContext) {}
+    fn on_entry_blocked(&self, _ctx: &sentinel_core::base::EntryContext, e: sentinel_core::base::BlockError) {
+        let v = e
+            .triggered_value()
+            .and_then(|s| s.as_any().downcast_ref::<f64>().map(|x| x.to_bits() as i128));
+        *LAST_VALUE.lock().unwrap() = Some(v.unwrap_or(-3));
+    }
+    fn on_completed(&self, _ctx: &mut sentinel_core::base::EntryContext) {}
+}
+
 pub fn run_case(t: &mut Toks) -> Vec<i128> {
     let mut out = Vec::new();
+    let custom = Arc::new(sentinel_core::verif::chain::standard_plus(vec![], vec![Arc::new(ValueSlot {})]));
     let base = t.u64();
     clock::set_ms(base);
     verif_set::system_load(0.0);
@@ -59,7 +79,9 @@ pub fn run_case(t: &mut Toks) -> Vec<i128> {
         match t.s().as_str() {
             "B" => {
                 let (id, batch, inbound) = (t.u64(), t.u32(), t.u64());
+                *LAST_VALUE.lock().unwrap() = None;
                 let b = EntryBuilder::new("sysres".into())
+                    .with_slot_chain(custom.clone())
                     .with_batch_count(batch)
                     .with_traffic_type(if inbound == 1 { TrafficType::Inbound } else { TrafficType::Outbound });
                 match guarded(|| b.build()) {
@@ -73,7 +95,10 @@ pub fn run_case(t: &mut Toks) -> Vec<i128> {
                     }
                     Some(Err(e)) => {
                         let m = e.to_string();
-                        out.extend([1, rule_id_of_msg(&m), snapshot_bits(&m)]);
+                        // the value as an f64 seen by a statistics slot; it must also be what the message shows
+                        let seen = LAST_VALUE.lock().unwrap().unwrap_or(-3);
+                        let shown = snapshot_bits(&m);
+                        out.extend([1, rule_id_of_msg(&m), if seen == shown { seen } else { -3 }]);
                         if block_code_of_msg(&m) != 4 {
                             out.push(-7);
                         }
